@@ -143,7 +143,7 @@ func rangesToChunks(
 
 		// If this measurement measures some pre-hardcoded value instead of
 		// actually measuring the BIOS image, then re-used the hardcoded value:
-		if expectedMeasurement != nil {
+		if expectedMeasurement != nil && len(chunks) < len(expectedMeasurement.Data.References) {
 			art := expectedMeasurement.Data.References[len(chunks)].Artifact
 			if b, ok := art.(types.RawBytes); ok {
 				chunk = types.NewReference(b)
